@@ -64,6 +64,9 @@ TAG_ENUMVAR = 'inline-enum-typed-global'
 TAG_ANONINC = 'include-anonymous-struct-numbering'
 
 
+PACKS = [{}, {'packed': True}, {'pack': 1}, {'pack': 2}, {'pack': 4}]
+
+
 def strategy(ctx):
     item = st.fixed_dictionaries({
         'spec': cdefgen.specs(FEATURES, 1, 12).map(cdefgen.gcc_safe),
@@ -73,6 +76,8 @@ def strategy(ctx):
         # 4-byte opcode encoding (indices into BIG_LENGTHS)
         'big': st.one_of(st.just([]), st.just([]), st.just([]),
                          st.lists(st.integers(0, len(BIG_LENGTHS) - 1), min_size=1, max_size=2)),
+        # cdef(..., packed=True / pack=N), applied when the spec has no bitfield (index into PACKS)
+        'pack': st.sampled_from([0, 0, 0, 0, 1, 2, 3, 4]),
     })
     # one gcc run per Hypothesis case (process creation is the scarce resource): make most
     # batches large; the small-batch alternative comes first so that failures shrink into it
@@ -184,7 +189,7 @@ def _read(ffi, lib, name):
 
 # ---------------------------------------------------------------- the property
 
-def _build(levels, k, so, tmp):
+def _build(levels, k, so, tmp, packkw={}):
     """-> (ffi1, lib1, ffi2, lib2, generated text of the top module, module names)"""
     import cffi
     inl = []
@@ -195,7 +200,7 @@ def _build(levels, k, so, tmp):
         f = cffi.FFI()
         for b in inl[-1:]:
             f.include(b)
-        f.cdef(cdefgen.cdef_text(sp))
+        f.cdef(cdefgen.cdef_text(sp), **packkw)
         inl.append(f)
     # out-of-line: a fresh set of FFIs (set_source() can be called once per FFI, and the
     # in-line reference must not be the object that was recompiled)
@@ -204,7 +209,7 @@ def _build(levels, k, so, tmp):
         f = cffi.FFI()
         for b in gen[-1:]:
             f.include(b)
-        f.cdef(cdefgen.cdef_text(sp))
+        f.cdef(cdefgen.cdef_text(sp), **packkw)
         name = '_c11_%d_m%d_l%d' % (os.getpid(), k, lv)
         f.set_source(name, None)
         path = os.path.join(tmp, name + '.py')
@@ -237,7 +242,7 @@ def prop(batch, ctx):
         with warnings.catch_warnings():
             warnings.simplefilter('ignore')
             for k, it in enumerate(batch):
-                _one(renamed[k], it['cuts'], k, so, ctx)
+                _one(renamed[k], it['cuts'], k, so, ctx, it.get('pack', 0))
     finally:
         try:
             os.unlink(so)
@@ -245,7 +250,19 @@ def prop(batch, ctx):
             pass
 
 
-def _one(spec, cuts, k, so, ctx):
+def _all_fields(d):
+    """fields of a struct decl, including those of anonymous nested members"""
+    out = []
+    def walk(fields):
+        for n, t, b in fields:
+            out.append((n, t, b))
+            if t and t[0] == 'anon':
+                walk(t[2])
+    walk(d['fields'])
+    return out
+
+
+def _one(spec, cuts, k, so, ctx, pack=0):
     decls = spec['decls']
     levels = [lv for lv in cdefgen.split_chain(spec, cuts)]
     # an empty included level is legal but pointless; drop empty levels except the top one
@@ -273,7 +290,14 @@ def _one(spec, cuts, k, so, ctx):
     else:
         norm = lambda s: s
 
-    ffi1, ffi2, text, modnames = _build(levels, k, so, ctx.tmp)
+    has_bf = any(d['k'] == 'struct' and any(b is not None for _n, _t, b in _all_fields(d)) for d in decls)
+    packkw = PACKS[pack % len(PACKS)] if not has_bf else {}
+    if packkw.get('pack', 0) > 1 and any(d['k'] == 'struct' for d in decls) and \
+            ctx.skip_known('ool-pack-n-not-supported'):
+        packkw = {}
+    if packkw:
+        ctx.event('packed:%s' % sorted(packkw.items())[0][1])
+    ffi1, ffi2, text, modnames = _build(levels, k, so, ctx.tmp, packkw)
     lib1 = lib2 = None
     try:
         def fail(what, path, a, b):
